@@ -1,4 +1,5 @@
 import Comdex.Lemmas.LiqOrders
+import Comdex.Lemmas.LiqAmmBridge
 /-!
 # C07 — Every order is settled exactly: fills, refunds and swap fees add up
 
@@ -16,7 +17,9 @@ Property clause → theorem
         the owner), `terminated_settled` (ledger of every ended order, any history)
 * "nothing of a terminated order remains in escrow"
       → `terminated_settled` (taken = spent + refunded + forwarded) with `escrow_holds_only_live_orders`
-* "an order that is not in its placement batch can always be cancelled by its owner" → `cancellable_after_batch`
+* "an order that is not in its placement batch can always be cancelled by its owner"
+      → `cancellable_after_batch` (hypothesis: the match results of THAT pair lost nothing, `lostOf a p ops = 0`),
+        `lostOf_zero_of_modelled` (proved for lossless runs of C05's modelled matcher), `cancellable_after_batch_of_conserving`
 * "cancelling or replacing market-making orders cancels and refunds every previously placed market-making order of that
   owner in that pair — for every combination of app id and pair id"
       → `mm_cancel_cancels_all`, `mm_replace_cancels_all` (repaired lookup, all app / pair ids),
@@ -98,10 +101,28 @@ theorem escrow_holds_only_live_orders {cfg : Cfg} (hc : CfgOk cfg) (funds : List
       liveSum cfg a p d (after cfg funds ops).orders + (after cfg funds ops).bal (.mIn a p) d :=
   (reachable_inv hc funds ops).pairEsc a p d
 
-/-- **Cancellable after the placement batch**: in every state reached by a history whose match results conserve coins,
-the owner's `MsgCancelOrder` for a live order placed in an earlier batch succeeds, the order becomes cancelled and the
-owner receives the refund. -/
+/-- **Cancellable after the placement batch**: in every state reached by a history in which the match results *of that
+pair* lost nothing (`lostOf a p ops = 0`; other pairs and apps are unconstrained), the owner's `MsgCancelOrder` for a live
+order placed in an earlier batch succeeds, the order becomes cancelled and the owner receives the refund. -/
 theorem cancellable_after_batch {cfg : Cfg} (hc : CfgOk cfg) (funds : List (Nat × Nat × Nat)) (ops : List Op)
+    {a u p i : Nat} (hlost : lostOf a p ops = 0) {o : Order} {pp : Pair} {ac : AppCfg}
+    (hp0 : p ≠ 0) (hi0 : i ≠ 0) (hac : cfg.app? a = some ac)
+    (ho : (after cfg funds ops).order? (a, p, i) = some o) (hown : o.owner = u) (hl : o.status.live = true)
+    (hpp : (after cfg funds ops).pair? a p = some pp) (hb : o.batch ≠ pp.curBatch) :
+    ∃ s', step cfg (after cfg funds ops) (.cancel a u p i) = some s' ∧
+      (∀ o', s'.order? (a, p, i) = some o' → o'.status = .canceled) ∧
+      s'.bal (.user u) o.od = (after cfg funds ops).bal (.user u) o.od + (o.remaining + (feeRes ac.feeRate o - fwdSpec ac.feeRate o)) := by
+  have hs : ∀ d, (after cfg funds ops).bal (.mOut a p) d ≤ (after cfg funds ops).bal (.mIn a p) d := by
+    intro d
+    have h0 : (genesis funds).bal (.mOut a p) d ≤ (genesis funds).bal (.mIn a p) d + 0 := by
+      rw [genesis_bal _ _ _ (by simp), genesis_bal _ _ _ (by simp)]
+    have := runT_slack (cfg := cfg) a p d ops (genesis funds) 0 h0
+    rw [hlost] at this
+    unfold after; omega
+  exact cancelOrder_succeeds (reachable_inv hc funds ops) hs hp0 hi0 hac ho hown hl hpp hb
+
+/-- the same from the conservation law on all observed match results -/
+theorem cancellable_after_batch_of_conserving {cfg : Cfg} (hc : CfgOk cfg) (funds : List (Nat × Nat × Nat)) (ops : List Op)
     (hcons : ∀ op ∈ ops, OpConserving op) {a u p i : Nat} {o : Order} {pp : Pair} {ac : AppCfg}
     (hp0 : p ≠ 0) (hi0 : i ≠ 0) (hac : cfg.app? a = some ac)
     (ho : (after cfg funds ops).order? (a, p, i) = some o) (hown : o.owner = u) (hl : o.status.live = true)
@@ -109,7 +130,22 @@ theorem cancellable_after_batch {cfg : Cfg} (hc : CfgOk cfg) (funds : List (Nat 
     ∃ s', step cfg (after cfg funds ops) (.cancel a u p i) = some s' ∧
       (∀ o', s'.order? (a, p, i) = some o' → o'.status = .canceled) ∧
       s'.bal (.user u) o.od = (after cfg funds ops).bal (.user u) o.od + (o.remaining + (feeRes ac.feeRate o - fwdSpec ac.feeRate o)) :=
-  cancelOrder_succeeds (reachable_inv hc funds ops) (runT_solvent ops hcons _ (genesis_solvent funds)) hp0 hi0 hac ho hown hl hpp hb
+  cancellable_after_batch hc funds ops (lostOf_zero_of_conserving a p ops hcons) hp0 hi0 hac ho hown hl hpp hb
+
+/-- a lossless run of the modelled matcher (C05) with non-negative dust loses nothing: for histories whose match results
+are such runs, `lostOf = 0` is PROVED, not assumed -/
+theorem lostOf_zero_of_modelled (a p : Nat) (ops : List Op)
+    (hm : ∀ a' ms ds ws, Op.endBlock a' ms ds ws ∈ ops → ∀ m ∈ ms,
+      ∃ (b b' : Amm.Book) (lp mp q : Int), LiqBridge.ModelledRun b lp b' mp q ∧ 0 ≤ q ∧ Amm.matchLossless b lp = true ∧
+        m = LiqBridge.matchInOf m.pair b b' q) :
+    lostOf a p ops = 0 := by
+  apply lostOf_zero_of_conserving
+  intro op hop
+  cases op <;> try trivial
+  rename_i a' ms ds ws
+  intro m hmm
+  obtain ⟨b, b', lp, mp, q, hr, hq, hl, he⟩ := hm a' ms ds ws hop m hmm
+  rw [he]; exact LiqBridge.modelled_conserving hr hq hl m.pair
 
 /-- **MsgCancelMMOrder cancels every indexed order** (repaired lookup), for every app id and pair id: after a successful
 cancel, every order listed in the owner's market-making index of that pair is ended, and the index is gone.  (Each of
